@@ -8,7 +8,7 @@ from harness.core import Check, Finding
 
 KINDS = ['cookies', 'headers', 'status', 'raised', 'errpage', 'crash', 'body',
          'notfound', 'notallowed', 'badpath', 'empty', 'head', 's204',
-         'toolarge', 'badjson', 'errjson', 'crashjson', 'copyhdr']
+         'toolarge', 'badjson', 'errjson', 'crashjson', 'copyhdr', 'badmultipart']
 QUICK_KINDS = ['cookies', 'headers', 'status', 'raised', 'errpage', 'body']
 
 # application configurations (DESIGN.md 6/C08 kinds "error page"): plain, debug pages, custom
@@ -33,7 +33,7 @@ ERROR_PAIRS = [
     ('toolarge', 'errjson', 'plain'), ('crash', 'toolarge', 'debug'), ('toolarge', 'crashjson', 'debug'),
     ('crashjson', 'errjson', 'debug'), ('cookies', 'toolarge', 'hooks'), ('toolarge', 'headers', 'hooks'),
     ('status', 'raised', 'hooks'), ('raised', 'status', 'debughooks'), ('copyhdr', 'headers', 'plain'),
-    ('headers', 'copyhdr', 'hooks'),
+    ('headers', 'copyhdr', 'hooks'), ('badmultipart', 'badmultipart', 'debug'), ('badmultipart', 'badjson', 'debug'),
 ]
 
 
@@ -86,6 +86,14 @@ def mk(kind, p, rid, app=1):
         r['ops'] = [('sethdr', 'X-Own', 'o%d' % p), ('query', 'q')]
         r['out'] = ('failjson',)
         if p % 2 == 0:
+            r['hdrs'] = dict(r['hdrs'], Accept='application/json')
+    elif kind == 'badmultipart':
+        # a part header without a colon, different in every request: errors_map[BodyParsingError]
+        r.update(method='POST', body='--b\r\nBadHeader-%d\r\n\r\nv\r\n--b--\r\n' % p,
+                 ctype='multipart/form-data; boundary=b')
+        r['ops'] = [('sethdr', 'X-Own', 'o%d' % p)]
+        r['out'] = ('failmultipart',)
+        if p % 2:
             r['hdrs'] = dict(r['hdrs'], Accept='application/json')
     elif kind == 'errjson':
         r['hdrs'] = dict(r['hdrs'], Accept='application/json')
@@ -256,7 +264,7 @@ class C08(Check):
                   'inside one source line.')
     level_note_extra = ('partial: CPython may switch threads between bytecodes of one line; the scheduler exercises line '
                         'boundaries only. Shared non thread-local objects touched while serving are listed by the '
-                        'extractor (Gen/Tsprops.lean sharedTouched) and must be read-only or idempotent.')
+                        'extractor (Gen/Tsprops.lean tsSharedTouched) and must be read-only or idempotent.')
     technique = 'Lean 4 proof + schedule-controlled differential correspondence'
     anchors = ['ombott/common_helpers.py', 'ombott/response.py', 'ombott/request_pkg/request.py', 'ombott/ombott.py']
     rule = ('2-3 real threads on one fresh application, serialised by the baton scheduler; request kinds cookies, '
